@@ -60,8 +60,8 @@ REPS = [
     dict(rep="sparse", labels="int", alabels="str", explicit_list=False, dist="sparse"),
     dict(rep="sparse", labels="mixed", alabels="tuple", explicit_list=False, dist="sparse"),
 ]
-TIERS = {"quick": dict(n_inst=140, per_inst=6, n_mc=20, mc_cap=120),
-         "thorough": dict(n_inst=1200, per_inst=8, n_mc=160, mc_cap=400)}
+TIERS = {"quick": dict(n_inst=140, per_inst=6, n_mc=20, mc_cap=120, n_light=24),
+         "thorough": dict(n_inst=1200, per_inst=8, n_mc=160, mc_cap=400, n_light=40)}
 FLAGS = [(0, 0), (1, 1), (0, 1), (1, 0)]
 HKINDS = ["const", "exact", "slack", "vslack"]
 INST_KEYS = ("N", "K", "PD", "GN", "GD", "ID", "abs", "avail", "P", "R", "p0")
@@ -107,11 +107,102 @@ def dag_mdp(rng, f):
             "abs": [1 if topo.index(s) >= n_na else 0 for s in range(N)], "avail": avail, "P": P, "R": R, "p0": p0}
 
 
+MIRROR_FAMS = [dict(PD=10, GN=1, GD=1, rewards=(-2, -1, 0)), dict(PD=3, GN=1, GD=2, rewards=(-2, -1, 0, 1, 2)),
+               dict(PD=7, GN=1, GD=1, rewards=(-2, -1, 0)), dict(PD=3, GN=1, GD=1, rewards=(-2, -1, 0)),
+               dict(PD=5, GN=1, GD=2, rewards=(-2, -1, 0, 1, 2)), dict(PD=10, GN=1, GD=1, rewards=(-3, -1, 0, 1)),
+               dict(PD=3, GN=3, GD=4, rewards=(-2, -1, 0, 1)), dict(PD=6, GN=1, GD=2, rewards=(-2, -1, 0, 1))]
+# (PD = 10 with gamma = 1/2 and PD = 3 with gamma = 9/10 exceed the 30-bit bound of the exact oracle, gen.magnitude_ok;
+#  PD = 10 exceeds Exactable: those runs are judged by the oracle and the exact policy evaluation only)
+
+
+def _composition(rng, total, parts, full):
+    """Random composition of `total` over `parts` cells; all cells positive when `full` and possible."""
+    if full and total >= parts:
+        cuts = sorted(rng.sample(range(1, total), parts - 1))
+        return [c - p for p, c in zip([0] + cuts, cuts + [total])]
+    out = [0] * parts
+    for _ in range(total):
+        out[rng.randrange(parts)] += 1
+    return out
+
+
+def mirror_mdp(rng, f):
+    """Mirror-tie member of MDPFam: a hub state chooses between two actions that lead into two identical
+    stochastic sub-structures (twins u / v with the same actions, probabilities and rewards, looping to
+    themselves, to each other and back to the hub), with non-dyadic probabilities (thirds, fifths, sevenths,
+    tenths).  The two hub actions, and the twins' values, tie *exactly*, while their floating-point evaluations
+    differ by rounding noise."""
+    PD, K = f["PD"], rng.choice([2, 2, 3])
+    n_abs = rng.choice([1, 1, 1, 2])
+    N = 3 + n_abs
+    lab = list(range(N))
+    rng.shuffle(lab)
+    h, u, v = lab[0], lab[1], lab[2]
+    goals = lab[3:]
+    full = rng.random() < 0.8
+    avail = [[0] * K for _ in range(N)]
+    P = [[[0] * N for _ in range(K)] for _ in range(N)]
+    R = [[[0] * N for _ in range(K)] for _ in range(N)]
+    rw = lambda: rng.choice(f["rewards"])
+    # hub: actions 0 / 1 are mirror images (same probabilities and rewards, twin u vs twin v)
+    x, y, z = _composition(rng, PD, 3, full)          # into the twin / staying at the hub / to a goal
+    if x == 0:
+        x, z = z, x
+    if x == 0:
+        x, y = y, x
+    r_twin, r_self, r_goal, g0 = rw(), rw(), rw(), rng.choice(goals)
+    for a, tw in ((0, u), (1, v)):
+        avail[h][a] = 1
+        P[h][a][tw], P[h][a][h], P[h][a][g0] = x, y, z
+        R[h][a][tw], R[h][a][h], R[h][a][g0] = r_twin, r_self, r_goal
+    if K == 3 and rng.random() < 0.4:                 # a third, unrelated hub action
+        avail[h][2] = 1
+        w = rng.randint(1, PD)
+        P[h][2][rng.choice(goals)] += w
+        P[h][2][rng.choice([h, u, v])] += PD - w
+        for t in range(N):
+            R[h][2][t] = rw()
+    # twins: identical action sets; every action reaches a goal with positive probability
+    acts = [a for a in range(K) if a == 0 or rng.random() < 0.6]
+    for a in acts:
+        to_goal, to_hub, to_self, to_other = _composition(rng, PD, 4, full)
+        if to_goal == 0:
+            to_goal, to_self = max(to_self, 1), 0
+            to_hub = PD - to_goal - to_other if PD - to_goal - to_other >= 0 else 0
+            to_other = PD - to_goal - to_hub
+        g = rng.choice(goals)
+        rg, rh, rs, ro = rw(), rw(), rw(), rw()
+        for me, other in ((u, v), (v, u)):
+            avail[me][a] = 1
+            P[me][a][g], P[me][a][h], P[me][a][me], P[me][a][other] = to_goal, to_hub, to_self, to_other
+            R[me][a][g], R[me][a][h], R[me][a][me], R[me][a][other] = rg, rh, rs, ro
+    for g in goals:                                    # ghost dynamics of the absorbing states
+        while not any(avail[g]):
+            avail[g] = [1 if rng.random() < 0.7 else 0 for _ in range(K)]
+        for a in range(K):
+            P[g][a] = gen.rand_row(rng, N, PD)
+            for t in range(N):
+                R[g][a][t] = rw()
+    ID = rng.choice([2, 3, 4])
+    p0 = [0] * N
+    if rng.random() < 0.75:
+        p0[h] = ID
+    else:
+        p0[h], p0[rng.choice([u, v] + goals)] = ID - 1, 1
+    return {"N": N, "K": K, "PD": PD, "GN": f["GN"], "GD": f["GD"], "ID": ID,
+            "abs": [1 if s in goals else 0 for s in range(N)], "avail": avail, "P": P, "R": R, "p0": p0}
+
+
 def make_instances(rng, n):
     out = []
     while len(out) < n:
         f = FAMS[len(out) % len(FAMS)]
         und = f["GN"] == f["GD"]
+        if len(out) % 5 == 4:
+            m = mirror_mdp(rng, MIRROR_FAMS[(len(out) // 5) % len(MIRROR_FAMS)])
+            if gen.magnitude_ok(m, QD=6):
+                out.append(m)
+            continue
         if len(out) % 3 == 2:
             m = dag_mdp(rng, f)
             if gen.magnitude_ok(m, QD=6):
@@ -656,6 +747,34 @@ def judge_one(ctx, i, run, o, rec, mcrec):
                 "machine": {"phase": rec["phase"], "its": rec["its"], "pinit": rec["pinit"]}})
 
 
+def judge_light(ctx, run, o, vstar, vinit):
+    """Extra executions on the mirror-tie family, judged against the oracle run only (no machine, no exact policy
+    judge): plan_on returns, reports convergence, optimal initial value, upper bounds, policy domain / availability."""
+    m, rc = run["m"], run["rc"]
+    shape = shape_of(m, rc) + "/mirror-tie"
+    ctx.evaluations += 1
+    ctx.count("light_runs_on_mirror_tie_family")
+
+    def fail(site, what):
+        ctx.violation(f"C03:{site}:{shape}", f"{site}: {what}", {"m": m, "rc": rc, "site": site, "extra": "light"})
+
+    if "error" in o:
+        fail(f"LAOStar.plan_on[raised {o['etype']}]", f"raised {o['error']} on a valid instance (no convergence reported)")
+        return
+    rw = rounding_window(m)
+    if o["converged"] is not True:
+        fail("PlanningResult.converged", f"converged={o['converged']} after {o['iterations']} iterations")
+    if not near(o["initial_value"], vinit, rw):
+        fail("PlanningResult.initial_value", f"initial_value={o['initial_value']} but the optimum is {vinit} = {float(vinit)}")
+    for s, v in sorted(o.get("svm", {}).items()):
+        if not (v >= float(vstar[s]) - rw - 1e-9 * max(1.0, abs(float(vstar[s])))):
+            fail("PlanningResult.state_value_map", f"value {v} held for state {s} is below V*={vstar[s]} = {float(vstar[s])}")
+            break
+    if o["polerr"] is not None:
+        kind, s, det = o["polerr"]
+        fail(f"PlanningResult.policy[{kind}]", f"policy at reachable state {s}: {kind} ({det})")
+
+
 def _pol_row(m, o, s):
     sup = o["pol"].get(s)
     return [1 if a in sup else 0 for a in range(m["K"])] if sup else list(m["avail"][s])
@@ -716,6 +835,12 @@ def run(ctx):
                 raise TLCFailure(f"TLA+ V* and Python V* disagree on instance {j}: {vs} vs {pv}")
             ctx.count("oracle_crosschecks")
         keep.append((m, vs, o["v"]))
+        # mirror-tie family (every 5th instance): many more seeds / configurations, judged against the oracle run
+        if j % 5 == 4:
+            lr = random.Random(ctx.seed * 7 + j)
+            vi = frac(o["vinit"])
+            for r in make_runs(lr, m, vs, t["n_light"]):
+                judge_light(ctx, r, run_real(m, r["rc"]), vs, vi)
     # ---- MC: all behaviours on a sub-family
     mc_batch, mc_src = [], []
     for m, vs, raw in keep:
